@@ -22,9 +22,9 @@ package main
 
 import (
 	"bufio"
-	"math/big"
 	"flag"
 	"fmt"
+	"math/big"
 	"os"
 	"os/exec"
 	"os/signal"
@@ -214,19 +214,25 @@ func (p *prestate) imageFor(c cacheCfg) (*image, error) {
 
 // How a variant's node gets into the parent state:
 //
-//	repetition 0          own genesis: NewBlockChain executes and commits the genesis document, then the node receives the parent blocks
-//	repetition >= 1       the node starts on a copy of a database that already holds the genesis block (NewBlockChain loads it,
+//	own genesis           NewBlockChain executes and commits the genesis document, then the node receives the parent blocks
+//	                      (the reference execution of every block, and every delayed repetition; the genesis commit does not
+//	                      depend on the cache configuration)
+//	otherwise             the node starts on a copy of a database that already holds the genesis block (NewBlockChain loads it,
 //	                      SetupGenesisBlock's "no genesis document given" path), then receives the parent blocks
 //	cold restart          the node starts on a copy of the database of a node with the same configuration that executed the
 //	                      parent blocks and was stopped (BlockChain.Stop); it is given the genesis document like a real restart
 type variant struct {
-	Cfg  cacheCfg `json:"cache_config"`
-	Rep  int      `json:"repetition"`
-	Cold bool     `json:"cold_restart"`
+	Cfg     cacheCfg `json:"cache_config"`
+	Rep     int      `json:"repetition"`
+	Cold    bool     `json:"cold_restart"`
+	Scratch bool     `json:"own_genesis"`
 }
 
 func (v variant) String() string {
 	s := v.Cfg.String() + fmt.Sprintf(",rep=%d", v.Rep)
+	if v.Scratch {
+		s += ",own-genesis"
+	}
 	if v.Cold {
 		s += ",cold"
 	}
@@ -236,7 +242,7 @@ func (v variant) String() string {
 // fastVariant: reference configuration, started on the genesis database (used for node P and for re-executions)
 var fastVariant = variant{Cfg: cfgFromBits(0), Rep: 1}
 
-var refVariant = variant{Cfg: cfgFromBits(0)}
+var refVariant = variant{Cfg: cfgFromBits(0), Scratch: true}
 
 // quick: four corner configurations in which every axis is on twice and off twice
 var cornerCfgs = []int{0b0000, 0b1111, 0b0110, 0b1001}
@@ -280,6 +286,7 @@ func variantsFor(p *prestate, seqLen int) []variant {
 		cold(0b0110)
 		cold(0b1111)
 	}
+	vs[0].Scratch = true // == refVariant
 	return vs
 }
 
@@ -308,7 +315,7 @@ func nodeFor(p *prestate, v variant) (*node, error) {
 	}
 	var n *node
 	var err error
-	if v.Rep == 0 {
+	if v.Scratch {
 		n, err = boot(v.Cfg, p.Kind)
 	} else {
 		db := memorydb.New()
@@ -380,8 +387,13 @@ type proposal struct {
 
 // proposerPath: node P in the parent state, pool.AddLocal of every template transaction, CreateProposalBlock, apply on P.
 // Also derives the ENUMERATED block F: P's header with the template transactions in template order.
-func proposerPath(p *prestate, seq []int) *proposal {
-	pr := &proposal{}
+func proposerPath(p *prestate, seq []int) (pr *proposal) {
+	pr = &proposal{}
+	defer func() {
+		if x := recover(); x != nil {
+			pr.err = "panic: " + firstLine(fmt.Sprint(x))
+		}
+	}()
 	n, err := nodeFor(p, fastVariant)
 	if err != nil {
 		pr.err = "node construction: " + firstLine(err.Error())
@@ -457,12 +469,12 @@ func localise(p *prestate, w *wireBlock, ref *obs, v variant, o *obs) (axis, fie
 	}
 	// both sides are reproducible and differ: the difference is caused by how the variant's node was made
 	if v.Cfg == refVariant.Cfg && !v.Cold {
-		if v.Rep > 0 {
+		if !v.Scratch {
 			return "start-on-existing-genesis-db", field, a, b // reproducibly differs from a node that executed the genesis itself
 		}
 		return "repetition", field, a, b
 	}
-	if v.Rep > 0 && !v.Cold {
+	if !v.Scratch && !v.Cold {
 		og := execute(p, fastVariant, w)
 		if f, _, _ := diff(ref, og); f != "" {
 			return "start-on-existing-genesis-db", field, a, b
@@ -491,7 +503,7 @@ func localise(p *prestate, w *wireBlock, ref *obs, v variant, o *obs) (axis, fie
 			if bits&(1<<bit) == 0 {
 				continue
 			}
-			os := execute(p, variant{Cfg: cfgFromBits(1 << bit), Cold: v.Cold, Rep: v.Rep}, w)
+			os := execute(p, variant{Cfg: cfgFromBits(1 << bit), Cold: v.Cold, Scratch: v.Scratch}, w)
 			if f, _, _ := diff(ref, os); f != "" {
 				guilty = append(guilty, names[bit])
 			}
@@ -1066,6 +1078,7 @@ func replay() {
 			vs = append(vs, variant{Cfg: cfgFromBits(b), Cold: true})
 		}
 	}
+	vs[0].Scratch = true
 	cr := runCase(p, seq, 0, vs)
 	if cr.pr != nil {
 		fmt.Printf("  pool verdicts: %v ; proposed block order: %v\n", cr.pr.poolVerdict, cr.pr.pOrder)
